@@ -242,7 +242,30 @@ func (g *mdGen) block(d int) string {
 		}
 		return strings.Join(items, "\n")
 	case x == 8:
-		return "| h1 | h2 | h3 |\n|:---|:--:|---:|\n| " + g.inline(1) + " | " + g.words(1) + " | c |\n| d | e | f |"
+		// 1-4 columns with any mix of alignment markers; body rows shorter than, as long as, and longer than the header (GFM pads / truncates)
+		nc := 1 + g.r.Intn(4)
+		head, delim := "|", "|"
+		for c := 0; c < nc; c++ {
+			head += fmt.Sprintf(" h%d |", c+1)
+			delim += []string{"---|", ":--|", ":-:|", "--:|"}[g.r.Intn(4)]
+		}
+		rows := ""
+		for k := 1 + g.r.Intn(3); k > 0; k-- {
+			cells := nc + g.r.Intn(3) - 1 // nc-1 .. nc+1
+			if cells < 1 {
+				cells = 1
+			}
+			row := "|"
+			for c := 0; c < cells; c++ {
+				if c == 0 && g.r.Intn(2) == 0 {
+					row += " " + g.inline(1) + " |"
+				} else {
+					row += " " + g.words(1) + " |"
+				}
+			}
+			rows += "\n" + row
+		}
+		return head + "\n" + delim + rows
 	case x == 9:
 		return "---"
 	case x == 10:
